@@ -919,6 +919,11 @@ func (x *Exec) modifiedBy(nodes []ast.Node) *modSet {
 			case *ast.IncDecStmt:
 				visitLHS(s.X)
 			case *ast.RangeStmt:
+				if _, isChan := x.typeOf(s.X).Underlying().(*types.Chan); isChan {
+					for _, g := range x.rangeRecvRuleGhosts(s.X) {
+						m.ghost[g] = true
+					}
+				}
 				if s.Tok == token.ASSIGN {
 					if s.Key != nil {
 						visitLHS(s.Key)
